@@ -2,9 +2,9 @@ SPECIFICATION RSpec
 CONSTANTS
   Modes = {"do-nothing", "queue", "restart", "signal"}
   Postpones = {TRUE, FALSE}
-  Ds = {2}
+  Ds = {2, 3}
   Delays = {0, 3}
-  Gs = {3}
+  Gs = {3, 5}
   MaxChanges = 4
   MaxTime = 18
   WaiterAtomic = TRUE
